@@ -73,7 +73,14 @@ func Canon(u *url.URL) string {
 		if u.User != nil {
 			user = u.User.String() + "@" // credentials are part of what is asked for: another user's view is another resource
 		}
-		return u.Scheme + "://" + user + u.Host + path.Clean(p)
+		// (RFC 3986 6.2.3: host case and the scheme's default port do not make another resource)
+		host := strings.ToLower(u.Host)
+		if u.Scheme == "http" {
+			host = strings.TrimSuffix(host, ":80")
+		} else {
+			host = strings.TrimSuffix(host, ":443")
+		}
+		return u.Scheme + "://" + user + host + path.Clean(p)
 	default:
 		c := *u
 		c.Fragment = ""
@@ -222,7 +229,15 @@ func (s *Storage) ReadFile(name string) ([]byte, error, bool) {
 
 // RoundTrip serves http.DefaultTransport.
 func (s *Storage) RoundTrip(req *http.Request) (*http.Response, error) {
-	loc := Canon(req.URL)
+	u := req.URL
+	if user, pw, ok := req.BasicAuth(); ok && u.User == nil {
+		// credentials presented in the Authorization header instead of the URL (what net/http itself does
+		// with userinfo): the same resource as seen by the same user
+		c := *u
+		c.User = url.UserPassword(user, pw)
+		u = &c
+	}
+	loc := Canon(u)
 	if _, known := s.hosts()[req.URL.Host]; !known {
 		s.mu.Lock()
 		defer s.mu.Unlock()
